@@ -596,6 +596,8 @@ def check_c03(ctx, rep, tier):
     rep.floor("shrinking/growing length stores", run_shrink(ctx, rep), 10)
     rep.floor("Bvd users of data.len()", run_used(ctx, rep), 7)
     rep.floor("Bv non-operator methods (dispatch)", run_dispatch(ctx, rep), 71)
+    n = run_generic(ctx, rep, "SIB", f2.cloned_pairs)
+    rep.floor("hand-cloned Bvf/Bvd method pairs compared (stretch SIB)", n, 22)
     rep.not_decided += [
         "internals of K5 table entries (values written inside 0..len by shifts, rotations, parsers, append/prepend)",
         "histories are covered by induction (every writer re-establishes the padding invariant), not enumerated",
@@ -621,6 +623,8 @@ def check_c01(ctx, rep, tier):
     rep.floor("arithmetic kernels truncated to len (MASK-K1)", counts.get("K1", 0), 12)
     run_generic(ctx, rep, "USED", lambda c: [(b, b.key, "pass" if ok else "violation", why) for b, ok, why in mask.used_words(c)],
                 select=lambda b, k: b.trait in ARITH_KERNEL_TRAITS, memo_key="used")
+    n = run_generic(ctx, rep, "COVER", f2.kernel_coverage, select=lambda b, k: b.trait in ARITH_KERNEL_TRAITS)
+    rep.floor("arithmetic kernels: word coverage / schoolbook shape (COVER)", n, 12)
     n = run_generic(ctx, rep, "SIB", f2.word_primitives,
                     select=lambda b, k: any(x in k for x in ("mask", "cadd", "csub", "wmul")))
     rep.floor("word primitive copies compared (SIB)", n, 32)
@@ -644,6 +648,8 @@ def check_c02(ctx, rep, tier):
     run_generic(ctx, rep, "DECR", arith.decr_sites, configs=("dbg",), select=lambda b, k: b.name == "div_rem")
     n = run_generic(ctx, rep, "LEN", div_rem_shape)
     rep.floor("div_rem result shapes", n, 3)
+    n = run_generic(ctx, rep, "SIB", f2.div_rem_siblings)
+    rep.floor("div_rem sibling comparisons", n, 2)
     rep.not_decided += ["q*b + r = a and r < b (values of the shift-subtract loop)"]
 
 
@@ -652,6 +658,8 @@ def check_c04(ctx, rep, tier):
     rep.floor("bitwise kernels classified (K1 or/xor/not, K4 and)", counts.get("K1", 0) + counts.get("K4", 0), 15)
     n = run_generic(ctx, rep, "OPFID", op_fidelity)
     rep.floor("bitwise-assign kernels (operator fidelity)", n, 12)
+    n = run_generic(ctx, rep, "COVER", f2.kernel_coverage, select=lambda b, k: b.trait in BIT_KERNEL_TRAITS)
+    rep.floor("bitwise kernels: word coverage (COVER)", n, 12)
     run_generic(ctx, rep, "USED", lambda c: [(b, b.key, "pass" if ok else "violation", why) for b, ok, why in mask.used_words(c)],
                 select=lambda b, k: b.trait in BIT_KERNEL_TRAITS, memo_key="used")
     counts = run_fwd(ctx, rep, ops=("BitAnd", "BitOr", "BitXor", "Not"))
@@ -665,6 +673,8 @@ def check_c05(ctx, rep, tier):
     rep.floor("shift-amount narrowing sites", n, 36)
     n = run_generic(ctx, rep, "SIB", f2.byref_twins, select=lambda b, k: "Not" not in k)
     rep.floor("by-reference shift twins compared", n, 12)
+    n = run_generic(ctx, rep, "SIB", f2.cloned_pairs, select=lambda b, k: any(x in k for x in ("ShlAssign", "ShrAssign", "shl_in", "shr_in")))
+    rep.floor("hand-cloned Bvf/Bvd shift kernels compared", n, 14)
     counts = run_fwd(ctx, rep, ops=("Shl", "Shr"))
     _fwd_floor(rep, counts, "<< >>", 216, 36)
     run_generic(ctx, rep, "LEN", f2.length_effects,
@@ -795,6 +805,8 @@ def check_c13(ctx, rep, tier):
     run_generic(ctx, rep, "GUARD-CAP", guard.capacity_guards, select=lambda b, k: b.name in SER_FNS)
     n = run_generic(ctx, rep, "WRITE", write_is_to_vec)
     rep.floor("write implementations", n, 2)
+    n = run_generic(ctx, rep, "ENDIAN", f2.to_vec_arms)
+    rep.floor("to_vec endianness arms", n, 2)
     run_generic(ctx, rep, "DISPATCH", lambda c: [(b, b.key, "violation" if v == "violation" else "pass", m) for b, v, m in dispatch.analyse(c)],
                 select=lambda b, k: b.name in SER_FNS, memo_key="dispatch")
     run_generic(ctx, rep, "GUARD-BVP", bv_to_bvp_guards, select=lambda b, k: b.name in SER_FNS)
